@@ -120,26 +120,27 @@ Take(step, r) ==
    /\ obj' = r.S.obj /\ cells' = r.S.cells /\ last' = step /\ out' = r.out /\ depth' = depth + 1
    /\ lineage' = IF Derives(step) /\ r.out = "ok" THEN [lineage EXCEPT ![step.n] = step.t] ELSE lineage
 
-ImplStep(kinds) == \E step \in Steps : step.k \in kinds /\ Take(step, ImplPost(St, step))
-SpecStep(kinds) == \E step \in Steps : step.k \in kinds /\ Take(step, IF Derives(step) THEN SpecPost(St, step) ELSE [out |-> "ok", S |-> EditPost(St, step)])
-\* one named action per public operation
-IDerivePFI == ImplStep({"PFI"})        \* PointIsotherm.from_isotherm
-IDerivePFM == ImplStep({"PFM"})        \* PointIsotherm.from_modelisotherm
-IDeriveMFP == ImplStep({"MFP"})        \* ModelIsotherm.from_pointisotherm
-IDeriveRT == ImplStep({"RT"})          \* to_dict + constructor
-IConvert == ImplStep({"Convert"})      \* convert_pressure / loading / material / temperature
-IEditMeta == ImplStep({"SetMeta", "DelMeta", "MutMeta"})
-IEditMat == ImplStep({"EditMat", "Register"})
-IDrop == ImplStep({"Drop"})
+Spec1(step) == IF Derives(step) THEN SpecPost(St, step) ELSE [out |-> "ok", S |-> EditPost(St, step)]
+Of(kinds) == {s \in Steps : s.k \in kinds}
+\* one named action per public operation (transcribed system)
+IDerivePFI == \E step \in Of({"PFI"}) : Take(step, ImplPost(St, step))        \* PointIsotherm.from_isotherm
+IDerivePFM == \E step \in Of({"PFM"}) : Take(step, ImplPost(St, step))        \* PointIsotherm.from_modelisotherm
+IDeriveMFP == \E step \in Of({"MFP"}) : Take(step, ImplPost(St, step))        \* ModelIsotherm.from_pointisotherm
+IDeriveRT == \E step \in Of({"RT"}) : Take(step, ImplPost(St, step))          \* to_dict + constructor
+IConvert == \E step \in Of({"Convert"}) : Take(step, ImplPost(St, step))      \* convert_pressure / loading / material / temperature
+IEditMeta == \E step \in Of({"SetMeta", "DelMeta", "MutMeta"}) : Take(step, ImplPost(St, step))
+IEditMat == \E step \in Of({"EditMat", "Register"}) : Take(step, ImplPost(St, step))
+IDrop == \E step \in Of({"Drop"}) : Take(step, ImplPost(St, step))
 ImplNext == IDerivePFI \/ IDerivePFM \/ IDeriveMFP \/ IDeriveRT \/ IConvert \/ IEditMeta \/ IEditMat \/ IDrop
-SDerivePFI == SpecStep({"PFI"})
-SDerivePFM == SpecStep({"PFM"})
-SDeriveMFP == SpecStep({"MFP"})
-SDeriveRT == SpecStep({"RT"})
-SConvert == SpecStep({"Convert"})
-SEditMeta == SpecStep({"SetMeta", "DelMeta", "MutMeta"})
-SEditMat == SpecStep({"EditMat", "Register"})
-SDrop == SpecStep({"Drop"})
+\* the same operations as prescribed
+SDerivePFI == \E step \in Of({"PFI"}) : Take(step, Spec1(step))
+SDerivePFM == \E step \in Of({"PFM"}) : Take(step, Spec1(step))
+SDeriveMFP == \E step \in Of({"MFP"}) : Take(step, Spec1(step))
+SDeriveRT == \E step \in Of({"RT"}) : Take(step, Spec1(step))
+SConvert == \E step \in Of({"Convert"}) : Take(step, Spec1(step))
+SEditMeta == \E step \in Of({"SetMeta", "DelMeta", "MutMeta"}) : Take(step, Spec1(step))
+SEditMat == \E step \in Of({"EditMat", "Register"}) : Take(step, Spec1(step))
+SDrop == \E step \in Of({"Drop"}) : Take(step, Spec1(step))
 SpecNext == SDerivePFI \/ SDerivePFM \/ SDeriveMFP \/ SDeriveRT \/ SConvert \/ SEditMeta \/ SEditMat \/ SDrop
 ImplSys == Init /\ [][ImplNext]_vars
 SpecSys == Init /\ [][SpecNext]_vars
